@@ -23,15 +23,20 @@ import (
 // C18 — the CLI exits zero only after writing a complete parser.
 
 type cliScenario struct {
-	Grammar string   `json:"grammar"` // valid | warned | syntax-error | empty | bad-go
-	Text    string   `json:"text"`
-	Source  string   `json:"source"` // file | stdin | dash | missing | directory
-	Dest    string   `json:"dest"`   // default | named | stdout | missing-parent | directory
-	Flags   []string `json:"flags"`
+	Grammar  string   `json:"grammar"` // valid | warned | syntax-error | empty | bad-go
+	Text     string   `json:"text"`
+	Source   string   `json:"source"`             // file | stdin | dash | missing | directory
+	Dest     string   `json:"dest"`               // default | named | stdout | missing-parent | directory | device-full | stdout-full
+	Existing string   `json:"existing,omitempty"` // what the destination file holds beforehand: "" | shorter | longer
+	Flags    []string `json:"flags"`
 }
 
 func (s cliScenario) String() string {
-	return fmt.Sprintf("grammar=%s source=%s dest=%s flags=%v", s.Grammar, s.Source, s.Dest, s.Flags)
+	ex := ""
+	if s.Existing != "" {
+		ex = " existing-destination=" + s.Existing
+	}
+	return fmt.Sprintf("grammar=%s source=%s dest=%s%s flags=%v", s.Grammar, s.Source, s.Dest, ex, s.Flags)
 }
 
 func c18Gen(t *rapid.T) cliScenario {
@@ -73,6 +78,7 @@ func c18Gen(t *rapid.T) cliScenario {
 	}
 	sc.Source = rapid.SampledFrom([]string{"file", "file", "stdin", "dash", "missing", "directory"}).Draw(t, "source")
 	sc.Dest = rapid.SampledFrom([]string{"default", "named", "stdout", "missing-parent", "directory", "device-full", "stdout-full"}).Draw(t, "dest")
+	sc.Existing = rapid.SampledFrom([]string{"", "", "shorter", "longer"}).Draw(t, "existing")
 	for _, f := range []string{"-inline", "-switch", "-noast", "-strict"} {
 		if rapid.Bool().Draw(t, f) {
 			sc.Flags = append(sc.Flags, f)
@@ -145,6 +151,14 @@ func runScenario(c *drv.Ctx, bin string, sc cliScenario, n int) string {
 		} else {
 			destPath = "" // standard streams
 		}
+	}
+	if sc.Existing != "" && destPath != "" && (sc.Dest == "default" || sc.Dest == "named") {
+		// the destination already exists, e.g. from an earlier generation with other options
+		old := "package stale\n"
+		if sc.Existing == "longer" {
+			old = "package stale\n\n" + strings.Repeat("// a left-over line of an earlier, longer parser\nvar _ = 0\n", 4000)
+		}
+		_ = os.WriteFile(destPath, []byte(old), 0o644)
 	}
 	var exit int
 	var stdout, stderr string
@@ -308,7 +322,7 @@ func init() {
 		return runScenario(c, bin, sc, 0), nil
 	})
 	drv.Register("C18",
-		"rapid-generated scenarios for the built peg binary, each in a fresh temporary directory: grammar in {valid, warned (unused rule), syntax error (junk spliced in / truncated), empty, action that is not Go} x source in {file, stdin, '-', missing file, a directory} x destination in {default <grammar>.go, named file, -output -, missing parent directory, a directory, /dev/full, standard output on /dev/full} x any subset of -inline -switch -noast -strict. Expected outcome table: a missing/unreadable source, a syntax error, an unwritable destination, un-parseable generated code or a warning under -strict give exit!=0 and a message on stderr, with and without -strict; otherwise exit 0, the destination exists (default name <grammar>.go, stdout for -output - or stdin input), parses as Go, contains the Init method and ends properly, equals the in-process generation for the same arguments byte for byte (clean grammars), and stderr is empty (clean) or carries the warning. Non-trivial: a failure cause, or a non-default source/destination; distinct = scenario.",
+		"rapid-generated scenarios for the built peg binary, each in a fresh temporary directory: grammar in {valid, warned (unused rule), syntax error (junk spliced in / truncated), empty, action that is not Go} x source in {file, stdin, '-', missing file, a directory} x destination in {default <grammar>.go, named file, -output -, missing parent directory, a directory, /dev/full, standard output on /dev/full} x destination file absent / pre-existing shorter / pre-existing longer x any subset of -inline -switch -noast -strict. Expected outcome table: a missing/unreadable source, a syntax error, an unwritable destination, un-parseable generated code or a warning under -strict give exit!=0 and a message on stderr, with and without -strict; otherwise exit 0, the destination exists (default name <grammar>.go, stdout for -output - or stdin input), parses as Go, contains the Init method and ends properly, equals the in-process generation for the same arguments byte for byte (clean grammars), and stderr is empty (clean) or carries the warning. Non-trivial: a failure cause, or a non-default source/destination; distinct = scenario.",
 		[]string{"checks run as root, so an unwritable destination is modelled by a missing parent directory and by a directory in place of the file"},
 		c18Run)
 }
